@@ -224,7 +224,7 @@ def run_job(job):
         # escaping exception), not as the kernel killing the worker and taking the whole pool down
         import resource
 
-        lim = int(os.environ.get("VERIF_WORKER_MEM_GB", "6")) << 30
+        lim = int(os.environ.get("VERIF_WORKER_MEM_GB", "12")) << 30
         soft, hard = resource.getrlimit(resource.RLIMIT_AS)
         if soft == resource.RLIM_INFINITY or soft > lim:
             resource.setrlimit(resource.RLIMIT_AS, (lim, hard))
@@ -309,16 +309,36 @@ def _merge(acc, r):
     return acc
 
 
+def _worker_main(wid, task_q, result_q):
+    """one worker process: takes (task id, job) from the queue, says which one it started, returns the result"""
+    while True:
+        item = task_q.get()
+        if item is None:
+            return
+        tid, job = item
+        result_q.put(("start", wid, tid, None))
+        try:
+            r = run_job(job)
+        except BaseException as e:  # noqa: BLE001
+            r = _empty_result()
+            r["fatal"] = "".join(traceback.format_exception(type(e), e, e.__traceback__))[-3000:]
+            r["job"] = {"name": job.get("name"), "module": job["module"], "func": job["func"], "params": job.get("params", {})}
+        result_q.put(("done", wid, tid, r))
+
+
 def run_jobs(jobs, nproc=None, progress=None, budget_s=None, slice_s=None):
-    """Run the jobs on a process pool.
+    """Run the jobs on worker processes.
 
     budget_s (wall seconds for the whole call) switches on work sharing: a job runs in slices of
     at most slice_s seconds; when a slice ends with unexplored decision prefixes they are split
     into chunks and queued behind the jobs that have not had a first slice, so that cores that
     run out of jobs take over subtrees of the long ones.  A job is exhaustive only when no prefix
-    of it is left at the deadline."""
-    import concurrent.futures as cf
+    of it is left at the deadline.
+
+    A worker that dies (killed by the kernel, abort inside a C library) costs only the slice it was
+    running: that slice is reported as crashed, the worker is replaced, everything else goes on."""
     import multiprocessing as mp
+    import queue as _queue
 
     nproc = nproc or min(16, os.cpu_count() or 4, max(1, len(jobs)))
     if len(jobs) == 0:
@@ -330,51 +350,87 @@ def run_jobs(jobs, nproc=None, progress=None, budget_s=None, slice_s=None):
     left_over = [0] * len(jobs)
     finished = [False] * len(jobs)
     outstanding = [0] * len(jobs)
+    task_q = ctx.Queue()
+    result_q = ctx.Queue()
+    tasks = {}  # tid -> (job index, job dict)
+    running = {}  # wid -> tid
+    next_tid = [0]
 
-    def fail(i, e):
+    def submit(i, jj):
+        tid = next_tid[0]
+        next_tid[0] += 1
+        tasks[tid] = (i, jj)
+        outstanding[i] += 1
+        task_q.put((tid, jj))
+
+    def spawn(wid):
+        p = ctx.Process(target=_worker_main, args=(wid, task_q, result_q), daemon=True)
+        p.start()
+        return p
+
+    def crashed(i, why):
         r = _empty_result()
-        r["fatal"] = repr(e)
+        r["fatal"] = why
         r["job"] = {"name": jobs[i].get("name"), "module": jobs[i]["module"], "func": jobs[i]["func"],
                     "params": jobs[i].get("params", {})}
         return r
 
-    with cf.ProcessPoolExecutor(max_workers=nproc, mp_context=ctx, max_tasks_per_child=None) as ex:
-        futs = {}
-        for i, j in enumerate(jobs):
-            jj = dict(j)
-            if share and not j.get("twin"):
+    def finish_slice(i, r):
+        outstanding[i] -= 1
+        pend = r.pop("pending", None)
+        acc[i] = _merge(acc[i], r)
+        if pend and share and time.time() < deadline - 1.0 and not r.get("fatal"):
+            # hand the unexplored subtrees to the pool, shallow (big) ones spread out
+            nchunks = max(1, min(len(pend), nproc))
+            for k in range(nchunks):
+                jj = dict(jobs[i])
                 jj["_deadline"] = deadline
                 jj["_slice"] = slice_s or 60.0
-            futs[ex.submit(run_job, jj)] = i
-            outstanding[i] += 1
-        while futs:
-            done, _ = cf.wait(list(futs), return_when=cf.FIRST_COMPLETED)
-            for f in done:
-                i = futs.pop(f)
-                outstanding[i] -= 1
-                try:
-                    r = f.result()
-                except BaseException as e:  # noqa: BLE001
-                    r = fail(i, e)
-                pend = r.pop("pending", None)
-                acc[i] = _merge(acc[i], r)
-                if pend and share and time.time() < deadline - 1.0 and not r.get("fatal"):
-                    # hand the unexplored subtrees to the pool, shallow (big) ones spread out
-                    nchunks = max(1, min(len(pend), nproc))
-                    chunks = [pend[k::nchunks] for k in range(nchunks)]
-                    for ch in chunks:
-                        jj = dict(jobs[i])
-                        jj["_deadline"] = deadline
-                        jj["_slice"] = slice_s or 60.0
-                        jj["_initial_stack"] = ch
-                        futs[ex.submit(run_job, jj)] = i
-                        outstanding[i] += 1
-                elif r.get("timed_out"):
-                    left_over[i] += r.get("pending_prefixes", 0) or (len(pend) if pend else 0) or 1
-                if outstanding[i] == 0 and not finished[i]:
-                    finished[i] = True
-                    acc[i]["timed_out"] = left_over[i] > 0
-                    acc[i]["pending_prefixes"] = left_over[i]
-                    if progress:
-                        progress(i, acc[i])
+                jj["_initial_stack"] = pend[k::nchunks]
+                submit(i, jj)
+        elif r.get("timed_out"):
+            left_over[i] += r.get("pending_prefixes", 0) or (len(pend) if pend else 0) or 1
+        if outstanding[i] == 0 and not finished[i]:
+            finished[i] = True
+            acc[i]["timed_out"] = left_over[i] > 0
+            acc[i]["pending_prefixes"] = left_over[i]
+            if progress:
+                progress(i, acc[i])
+
+    for i, j in enumerate(jobs):
+        jj = dict(j)
+        if share and not j.get("twin"):
+            jj["_deadline"] = deadline
+            jj["_slice"] = slice_s or 60.0
+        submit(i, jj)
+    workers = {wid: spawn(wid) for wid in range(nproc)}
+    try:
+        while tasks:
+            try:
+                kind, wid, tid, r = result_q.get(timeout=1.0)
+            except _queue.Empty:
+                # anybody dead?
+                for wid, p in list(workers.items()):
+                    if not p.is_alive():
+                        tid = running.pop(wid, None)
+                        workers[wid] = spawn(wid)
+                        if tid is not None and tid in tasks:
+                            i, _jj = tasks.pop(tid)
+                            finish_slice(i, crashed(i, f"worker process died while running a slice of this job "
+                                                       f"(exit code {p.exitcode}): killed by the kernel or aborted inside a C library"))
+                continue
+            if kind == "start":
+                running[wid] = tid
+                continue
+            running.pop(wid, None)
+            if tid in tasks:
+                i, _jj = tasks.pop(tid)
+                finish_slice(i, r)
+    finally:
+        for _ in workers:
+            task_q.put(None)
+        for p in workers.values():
+            p.join(timeout=5)
+            if p.is_alive():
+                p.terminate()
     return acc
